@@ -19,7 +19,7 @@ RULE = ('case = device log table, a log configuration (0..26 variables over all 
         'create/append wire hash) for accepted configurations.')
 ASSUMPTIONS = ['firmware V2 block-creation layout: entries of (type:u8, id:u16); data packet = id, 24-bit timestamp, values',
                'for table variables the stored-type nibble may be the fetch type or the table type (the firmware ignores it)']
-REQUIRED = ['mon.configs_added_again_after_the_log_table_indices_moved', 'mon.configs_with_a_float_period', 'mon.rejected_configs_used_anyway', 'mon.refused_configurations_started_again', 'mon.configs_accepted', 'mon.configs_rejected', 'mon.create_messages', 'mon.append_messages',
+REQUIRED = ['mon.deleted_configurations_started_again', 'mon.configs_added_again_after_the_log_table_indices_moved', 'mon.configs_with_a_float_period', 'mon.rejected_configs_used_anyway', 'mon.refused_configurations_started_again', 'mon.configs_accepted', 'mon.configs_rejected', 'mon.create_messages', 'mon.append_messages',
             'mon.data_packets_decoded', 'mon.flag_checks', 'mon.readd_checks', 'mon.synclogger_samples',
             'mon.rejected_then_readded_on_newer_firmware', 'mon.delivered_samples_rechecked_later',
             'mon.synclogger_first_sample_right_behind_start_ack',
@@ -306,6 +306,12 @@ def run(desc, ctx):
             lc.delete()
             s.sleep(0.05)
             flags('after-delete')
+            if (desc['seed'] // 4) % 2 == 1 and not desc['errinj']:
+                # the deleted configuration is started again (no add_config in between: start() creates the block again)
+                lc.start()
+                s.sleep(0.1)
+                ob['restarted_after_delete'] = True
+                flags('after-start-of-the-deleted-configuration')
         if desc['hist'] == 3:
             # reconnect and re-add the same configuration object
             before = [(v.name, v.fetch_as, v.type) for v in lc.variables]
@@ -485,8 +491,10 @@ def run(desc, ctx):
         elif tag == 'after-reconnect-and-re-add':
             # the device dropped every block when the new connection reset its log subsystem (and acknowledged that)
             exp = (False, False)
-        elif tag == 'after-start-of-the-re-added-configuration':
+        elif tag in ('after-start-of-the-re-added-configuration', 'after-start-of-the-deleted-configuration'):
             exp = (True, True)
+            if tag == 'after-start-of-the-deleted-configuration':
+                ctx.count('mon.deleted_configurations_started_again')
             if not (dev_has and dev_started):
                 V('log:re-added-configuration-started-but-not-created-and-started-on-the-device',
                   {'device_has_block': dev_has, 'device_started': dev_started, 'added': added, 'started': started})
@@ -505,8 +513,9 @@ def run(desc, ctx):
         # history 3: the reset of the log subsystem at the second connection is acknowledged by the device - the block is
         # gone (False); when the configuration is started again it is created and started again (True)
         again = [True] if 'readd_id' in ob else []
-        exp_a = {0: [True], 1: [True], 2: [True, False], 3: [True, False] + again}[desc['hist']]
-        exp_s = {0: [True], 1: [True], 2: [True, False, True, False], 3: [True, False] + again}[desc['hist']]
+        again2 = [True] if ob.get('restarted_after_delete') else []
+        exp_a = {0: [True], 1: [True], 2: [True, False] + again2, 3: [True, False] + again}[desc['hist']]
+        exp_s = {0: [True], 1: [True], 2: [True, False, True, False] + again2, 3: [True, False] + again}[desc['hist']]
         if a_tr != exp_a or s_tr != exp_s:
             V('log:added-started-callbacks-do-not-follow-acknowledgements',
               {'added_cb': a_tr, 'started_cb': s_tr, 'expected': [exp_a, exp_s]})
